@@ -253,28 +253,44 @@ def r_summarize(chk):
            "measured risk = max over all of the contest's assertions of p_value, starting from 0 (reset per contest)",
            node=f.update, op=f.op, operand=norm(f.operand), init=norm(init) if init else None, full=f.full,
            reasons=f.reasons, iter=norm(l.iter))
-    # the decision
-    ifs = [s for s in outer.body if isinstance(s, ast.If) and s.lineno > l.lineno]
+    # the decision: the condition that controls the store of False into the flag, as a table (however the comparison is
+    # spelled, named or negated, and whichever branch carries the store)
+    from ..canon import expand_locals
+    from ..symx import Tx, c_and, c_not, E as _E, S as _S
+    from .. import symx as _symx, spec as _spec
     ok = False
     detail = {}
     falses = [(t, v, s) for t, v, s in stores(outer) if norm(t) == flag]
-    if ifs:
-        dec = ifs[0]
-        c = dec.test
-        detail["test"] = norm(c)
-        if isinstance(c, ast.Compare) and len(c.ops) == 1:
-            lft, rgt, op = norm(c.left), norm(c.comparators[0]), type(c.ops[0])
-            limits = {a + ".risk_limit" for a in con_alias}
-            pos = (lft == f.acc and rgt in limits and op is ast.LtE) or (rgt == f.acc and lft in limits and op is ast.GtE)
-            neg = (lft == f.acc and rgt in limits and op is ast.Gt) or (rgt == f.acc and lft in limits and op is ast.Lt)
-            branch = dec.orelse if pos else (dec.body if neg else None)
-            if branch is not None and len(falses) == 1:
-                t, v, s = falses[0]
-                ok = is_const(v, False) and s in branch
+    if len(falses) == 1 and is_const(falses[0][1], False):
+        t, v, s0 = falses[0]
+        conds = []
+        n_, p_ = s0, parent(s0)
+        while p_ is not None and p_ is not outer:
+            if isinstance(p_, ast.If):
+                tx = Tx()
+                ck_ = items_loop(outer)
+                alias = _S(f"{ck_[2]}[{ck_[0]}]")
+                tx.post = lambda e, alias=alias, cv_=ck_[1]: e.xreplace({alias: _S(cv_)}) if alias in e.free_symbols else e
+                for a_ in sorted(con_alias):
+                    pass
+                try:
+                    c_ = tx.cond(expand_locals(p_.test, fn, stop=(f.acc,)))
+                    # `contests[c].risk_limit` and `con.risk_limit` are the same attribute of the same object
+                    c_ = _symx.map_cond(c_, lambda a: a.replace(f"{ck_[2]}[{ck_[0]}].", f"{ck_[1]}.")) if hasattr(_symx, "map_cond") else c_
+                except _symx.Unsupported:
+                    c_ = ("atom", "opaque:" + norm(p_.test)[:40])
+                conds.append(c_ if n_ in p_.body else c_not(c_))
+            elif isinstance(p_, (ast.For, ast.While)):
+                conds.append(("atom", "inside-another-loop"))
+            n_, p_ = p_, parent(p_)
+        got = c_and(*conds) if conds else True
+        detail["flag_cleared_iff"] = _symx.fmt_cond(got) if got not in (True, False) else str(got)
+        wants = [_spec.cond_term(f"not ({f.acc} <= {a_}.risk_limit)") for a_ in sorted(con_alias)]
+        ok = got not in (True, False) and any(aud.cond_equiv(got, w_)[0] for w_ in wants) and s0.lineno > l.lineno
     detail["flag_stores_in_loop"] = [norm(s)[:60] + f"@{s.lineno}" for _, _, s in falses]
     chk.ob("C09.R4", where, "incomplete-iff-max-exceeds-own-limit", ok,
            "the flag is set to False exactly on the branch where the contest's measured risk exceeds its own risk limit "
-           "(comparison <=), and nowhere else", node=ifs[0] if ifs else outer, **detail)
+           "(comparison <=), and nowhere else", node=falses[0][2] if falses else outer, **detail)
 
 
 def r_reset(chk):
